@@ -5,6 +5,7 @@ import ast
 
 from .. import cfg as C
 from ..amatch import AM
+from ..flow import clone
 from ..algebra import NotPolynomial, Poly, ToPoly
 from ..fold import Folder, Obj, Raised, Refuse
 from ..report import AnalysisError
@@ -187,9 +188,9 @@ def expand_in(loop, expr, stop=()):
 
         def visit_Name(self, n):
             if isinstance(n.ctx, ast.Load) and cnt.get(n.id) == 1 and n.id not in self.seen and n.id not in stop:
-                return Sub(self.seen | {n.id}).visit(copy.deepcopy(defs[n.id]))
+                return Sub(self.seen | {n.id}).visit(clone(defs[n.id]))
             return n
-    return Sub(frozenset()).visit(copy.deepcopy(expr))
+    return Sub(frozenset()).visit(clone(expr))
 
 
 def rule_d(ctx):
